@@ -365,6 +365,7 @@ def run(chk):
     _seenpair_rule(chk, prog)
     _narrowcheck_rule(chk, prog)
     _viewcopy_rule(chk, prog)
+    _substpermatch_rule(chk, prog)
 
 
 UNBOUNDED_CSTR = ("strchr", "strrchr", "strlen", "strcmp", "strstr", "strcpy", "strcat", "strdup", "strpbrk", "strspn", "strcspn",
@@ -594,3 +595,41 @@ def _viewcopy_rule(chk, prog):
                           "replaced by private copies: a function that changes or resizes that buffer makes the rest of the search look for the "
                           "wrong bytes or read freed memory" % (v, ", ".join(str(i) for i in sorted(copied)) or "none"))
     chk.floor(rule, 2)
+
+
+def _substpermatch_rule(chk, prog):
+    """A substitution given as a function is called "once for each match" (docstring): it may count, pop replacements
+    off a list, look at the match.  In the loops of string/replace-all and peg/replace-all the call to
+    janet_text_substitution therefore belongs to every iteration - not behind a flag that remembers the first answer."""
+    rule = "C17-SUBSTPERMATCH"
+    chk.rule(rule, "in a replace-all loop the substitution is obtained in every iteration (the call to janet_text_substitution is in the match loop, under no further condition)")
+    n = 0
+    for fn in prog.all_funcs():
+        if fn.tu.name not in ("string.c", "peg.c") or "replace" not in fn.name or "all" not in fn.name.replace("_", ""):
+            continue
+        calls = fn.calls("janet_text_substitution")
+        loops = [x for x in fn.nodes if x.k in ("while", "for", "do")]
+        if not loops:
+            continue
+        n += 1
+        chk.instance(rule)
+        chk.analysed(fn)
+        inloop = [c for c in calls if any(any(z is c for z in lp.walk()) for lp in loops)]
+        bad = None
+        if not inloop:
+            bad = (fn, "is not called inside the match loop at all")
+        for c in inloop:
+            q = c.parent
+            while q is not None and q.k not in ("while", "for", "do"):
+                if q.k == "if" and any(z is c for z in (q.kids[1].walk() if len(q.kids) > 1 else [])):
+                    bad = (c, "sits under `if (%s)` inside the loop" % q.kids[0].text()[:30])
+                if q.k == "if" and len(q.kids) > 2 and q.kids[2] is not None and any(z is c for z in q.kids[2].walk()):
+                    bad = (c, "sits in the else branch of `if (%s)` inside the loop" % q.kids[0].text()[:30])
+                q = q.parent
+        if bad:
+            chk.violation(rule, fn.tu.name, fn.name, "subst", bad[0].loc,
+                          "in %s the call to janet_text_substitution %s: a function substitution is asked once and its answer reused, so a "
+                          "counting or popping function gives the same replacement for every match" % (fn.name, bad[1]))
+        else:
+            chk.ok(rule, "%s: one substitution call per match" % fn.name)
+    chk.floor(rule, 1, n)
